@@ -887,6 +887,9 @@ def oracle(inp):
         f = iosim.event_failure(waits, [1 for a in sscript if a[0] in (1, 2)], "send_packet")
         if f:
             return f
+        if code == 1 and not lockwaits and _lock_of(lk) in (None, "none") and not any(a[0] in (1, 2, 3, 4) for a in sscript):
+            return (f"send_packet: TimeoutError (timeout {T}) although the lock was free and no send()/sendmsg() call ever had to "
+                    "wait (a zero or exhausted budget means: do not wait)")
         if code in (8, 9):
             return "send_packet does not terminate"
         if code == 0 and wire != want:
@@ -927,7 +930,8 @@ def oracle(inp):
             if i < len(stream) // n:
                 if o != [0, realio.digest(stream[i * n:(i + 1) * n])]:
                     return f"real sockets: call {i} did not return packet {i} (got {o}) although the whole stream arrives"
-            elif o[0] in (8, 9, 1):
+            elif o[0] in (8, 9) or (o[0] == 1 and iosim.sx_tmo(T) is None):
+                # (with timeout 0 a short last read legitimately ends in TimeoutError before the EOF is seen)
                 return f"real sockets: call {i} after the end of the stream: code {o[0]} instead of end-of-stream"
         return None
     if op == 6:
